@@ -23,6 +23,11 @@ type c19Case struct {
 	Stack   StackCfg    `json:"stack"`
 	Callers []c19Caller `json:"callers"`
 	Yields  []uint8     `json:"yields,omitempty"`
+	// Overload: the backlog timeout is short, so some callers legitimately time out; what must still
+	// hold: held <= limit, a refused caller returns exactly at its timeout (or at once at a full
+	// backlog), and afterwards the pool serves its full limit again (no capacity lost to a time-out
+	// that raced with a hand-off).
+	Overload bool `json:"overload,omitempty"`
 }
 
 func genC19(coop bool) func(t *rapid.T) c19Case {
@@ -54,6 +59,9 @@ func genC19(coop bool) func(t *rapid.T) c19Case {
 		c.Stack.TimeoutMs = sum + 25
 		if c.Stack.Ordering == "random" {
 			c.Stack.TimeoutMs = rapid.SampledFrom([]int{0, 3, 50}).Draw(t, "retry")
+		} else if rapid.IntRange(0, 2).Draw(t, "overload") == 0 {
+			c.Overload = true
+			c.Stack.TimeoutMs = rapid.SampledFrom([]int{1, 2, 5, 5, 7, 10}).Draw(t, "short-timeout")
 		}
 		if coop {
 			c.Yields = rapid.SliceOfN(rapid.SampledFrom([]uint8{0, 0, 1, 1, 2, 3}), 0, 60).Draw(t, "yields")
@@ -122,7 +130,26 @@ func runC19InBubble(c c19Case) (out kit.Outcome) {
 		snap[i] = *cl
 	}
 	w.mu.Unlock()
-	if viol == nil {
+	if viol == nil && c.Overload {
+		to := time.Duration(c.Stack.TimeoutMs) * time.Millisecond
+		for i, s := range snap {
+			switch {
+			case !s.Done:
+				o := kit.Viol(kind+":overload-stuck", "caller %d (arrived +%dms, backlog timeout %v) has still not returned at +%v", i, c.Callers[i].AtMs, to, w.now())
+				viol = &o
+			case !s.OK && s.RetAt != s.Arrived && s.RetAt != s.Arrived+to:
+				o := kit.Viol(kind+":overload-refusal-instant", "caller %d (arrived +%v) was refused at +%v: neither at once (full backlog) nor at its backlog timeout (%v)", i, s.Arrived, s.RetAt, to)
+				viol = &o
+			case s.OK && s.RetAt > s.Arrived+to:
+				o := kit.Viol(kind+":overload-late-grant", "caller %d (arrived +%v) was granted at +%v, after its backlog timeout (%v)", i, s.Arrived, s.RetAt, to)
+				viol = &o
+			}
+			if viol != nil {
+				break
+			}
+		}
+	}
+	if viol == nil && !c.Overload {
 		for i, s := range snap {
 			spec := c.Callers[i]
 			bound := time.Duration(spec.AtMs+sum) * time.Millisecond
@@ -194,6 +221,16 @@ func runC19InBubble(c c19Case) (out kit.Outcome) {
 	if coincide {
 		out.Labels = append(out.Labels, "completion-coincides-with-arrival")
 	}
+	if c.Overload {
+		out.Labels = append(out.Labels, "overload")
+		for _, s := range snap {
+			if s.Done && !s.OK && s.RetAt > s.Arrived {
+				out.Labels = append(out.Labels, "overload-timeout")
+				break
+			}
+		}
+	}
+
 	return out
 }
 
